@@ -233,7 +233,47 @@ def r3_descriptor_delegates(ctx):
     ctx.ob(f"{g.key}:delegates", g.loc(), "binding an overloaded method to an instance is the entry point function's own descriptor binding, with the same instance and class", ok, "the descriptor no longer binds the generated entry point to the instance it was fetched from: self is lost or replaced")
 
 
+def r4_class_body_merge(ctx):
+    repo = ctx.repo
+    ns = A.cls_namespace(repo)
+    f = ns.methods["__setitem__"]
+    ctx.touch(f)
+    rv = recv_name(f)
+    key = [p for p in f.params if p != rv][0]
+    from .c14 import flatten_chain
+
+    chain = flatten_chain(f.node.body)
+    first = chain[0] if chain else None
+    own_first = False
+    if first and first[0] is not None:
+        t = first[0]
+        own_first = isinstance(t, ast.Compare) and len(t.ops) == 1 and isinstance(t.ops[0], ast.In) and dotted(t.left) == key and dotted(t.comparators[0]) == rv
+    ctx.ob(
+        f"{f.key}:own-entry-first",
+        f.loc(first[2]) if first else f.loc(),
+        "a name already defined in this class body is merged with its earlier definitions before anything else is considered",
+        own_first,
+        "the 'already defined in this class body' case is no longer tested first: a later definition marked extend_super rebuilds the method from the bases and silently drops the earlier same-named definitions of the class body",
+    )
+    # __prepare__ looks at every attribute the bases offer, inherited ones included
+    mc = A.overload_meta(repo)
+    p = mc.methods["__prepare__"]
+    ctx.touch(p)
+    calls = [c for c in ast.walk(p.node) if isinstance(c, ast.Call) and call_name(c) in ("dir", "vars") or (isinstance(c, ast.Attribute) and c.attr == "__dict__")]
+    uses_dir = any(isinstance(c, ast.Call) and call_name(c) == "dir" for c in calls)
+    shallow = [c for c in calls if not (isinstance(c, ast.Call) and call_name(c) == "dir")]
+    whole = any(isinstance(n, ast.For) and dotted(n.iter) in p.params for n in ast.walk(p.node))
+    ctx.ob(
+        f"{p.key}:inherited-names",
+        p.loc(calls[0]) if calls else p.loc(),
+        "the metaclass collects candidate method names with dir(base) for every base (inherited attributes included)",
+        uses_dir and not shallow and whole,
+        "the names to merge are taken from the bases' own bodies only: a class whose bases merely inherit the overloaded method no longer gets the merged overload of all bases",
+    )
+
+
 RULES = [
+    ("C17.R4", "P1", r4_class_body_merge, "class-body definitions merge first; inherited names are collected"),
     ("C17.R1", "P1", r1_copy_before_mutate, "copy before mutate"),
     ("C17.R2", "P1", r2_self_threading_agrees, "self threading agrees"),
     ("C17.R3", "P1", r3_descriptor_delegates, "the descriptor delegates to the entry point"),
